@@ -197,6 +197,51 @@ func TestOnceStress(t *testing.T) {
 			r.Violation("once-key-stringer", fmt.Sprintf("OnceConstructor with a key whose String() differs from call to call: constructor ran %d times", nm.Load()), map[string]any{"key": "stringer"})
 		}
 	}
+	// the nil interface value is a key like any other when K is an interface type
+	{
+		var na, ne atomic.Int32
+		ocA := syncutil.NewOnceConstructor(func(k any) *obj { return &obj{0, int(na.Add(1))} })
+		ocE := syncutil.NewOnceConstructor(func(k error) *obj { return &obj{0, int(ne.Add(1))} })
+		var a1, a2, e1, e2 *obj
+		p, v := mon.Catch(func() {
+			a1, a2 = ocA.Get(nil), ocA.Get(nil)
+			_ = ocA.Get(0)
+			_ = ocA.Get((*obj)(nil))
+			e1, e2 = ocE.Get(nil), ocE.Get(nil)
+		})
+		calls.Add(6)
+		if p || a1 == nil || a1 != a2 || e1 == nil || e1 != e2 || na.Load() != 3 || ne.Load() != 1 {
+			r.Violation("once-key-nil-interface", fmt.Sprintf("OnceConstructor[any] / [error] asked twice for the nil interface key (and for 0 and a typed nil pointer): panic=%v %v, results %p %p / %p %p, constructors ran %d (want 3) and %d (want 1) times", p, v, a1, a2, e1, e2, na.Load(), ne.Load()), map[string]any{"key": "nil interface"})
+		}
+	}
+	// one result per key for the life of the constructor, whatever happens to the process meanwhile: the number of
+	// Ps changes (containers resize, tests call runtime.GOMAXPROCS)
+	{
+		var ng atomic.Int32
+		ocG := syncutil.NewOnceConstructor(func(k int) *obj { return &obj{k, int(ng.Add(1))} })
+		orig := runtime.GOMAXPROCS(0)
+		firsts := make([]*obj, 200)
+		for k := range firsts {
+			firsts[k] = ocG.Get(k)
+		}
+		bad := ""
+		for _, procs := range []int{1, 2, 3, 4, 8, 16, 64, 128, orig} {
+			runtime.GOMAXPROCS(procs)
+			for k := range firsts {
+				if o := ocG.Get(k); o != firsts[k] && bad == "" {
+					bad = fmt.Sprintf("after runtime.GOMAXPROCS(%d) (it was %d when the key was constructed) Get(%d) returned another result: %+v, first %+v", procs, orig, k, o, firsts[k])
+				}
+			}
+			calls.Add(int64(len(firsts)))
+		}
+		runtime.GOMAXPROCS(orig)
+		if bad == "" && int(ng.Load()) != len(firsts) {
+			bad = fmt.Sprintf("the constructor ran %d times for %d keys while GOMAXPROCS was changed between the Gets", ng.Load(), len(firsts))
+		}
+		if bad != "" {
+			r.Violation("once-gomaxprocs", "OnceConstructor: "+bad, map[string]any{"key": "gomaxprocs"})
+		}
+	}
 	r.Eval(calls.Load())
 	r.NontrivialN(concurrentRounds.Load())
 	r.Count("rounds", int64(rounds))
